@@ -232,8 +232,9 @@ class BPlusTreeMap:
         while not node.is_leaf():
             node = node.get_child(key)
 
-        value = node.get(key)
-        return value if value is not None else default
+        # Decide by presence, not by the value: a stored None is a value like any other.
+        pos, exists = node.find_position(key)
+        return node.values[pos] if exists else default
 
     def __contains__(self, key: Any) -> bool:
         """Check if key exists (for 'in' operator)"""
